@@ -38,7 +38,7 @@ CLAIMS = {
         'text': 'C08_total: for every proper input (ranges of any size, empty allowed) and scope the drain returns normally - no panic arm (index out of range, unwrap) is '
                 'reachable and the loop fuel is never exhausted; C08_empty: an empty range makes the enumeration empty; C08_yield_bound; C08_no_recursion: the source of fn next '
                 'contains no self call (read by the translator each run). PARTIAL: native stack use and allocator failure are runtime facts outside any Lean model; they are '
-                'observed by child-process drains on a 2 MiB thread stack in the debug and the release build on the generated worst cases. C08_u8 / C08_advance_arith: on every reachable state (one step at a time, skip loops included) turn <= 48, river <= 49, turn < river and every counter is below its range\'s length, so no u8/usize arithmetic of the crate overflows in either profile; C08_steps: the exact number of loop iterations.',
+                'observed by child-process drains on a 2 MiB thread stack in the debug and the release build on the generated worst cases. C08_u8 / C08_advance_arith: on every reachable state (one step at a time, skip loops included) turn <= 48, river <= 49, turn < river and every counter is below its range\'s length, so no u8/usize arithmetic of the crate overflows in either profile; C08_steps: the exact number of loop iterations. C08_total_le / C02_refines_le: the same for ranges that hold degenerate pairs (CardPair::new(c, c), reachable through collect()): such a combo is skipped, never a panic (C08_degenerate_skipped).',
         'note': 'as C02; plus: the model counters are unbounded naturals like the usize counters of the repaired code (u8 arithmetic remains only in positions < 256); '
                 'the 2 MiB stack claim is witnessed, not proved.',
         'design_ref': 'DESIGN.md §6 C08',
@@ -81,7 +81,7 @@ CLAIMS = {
                 'has pinned the bytes before it to ASCII; C09_use_total: every token that parses satisfies the order conditions its expansion relies on (TokenOk), so expansion and printing '
                 'cannot panic; C09_range_views_total: rank_pairs / orphan_card_pairs / Display never panic for any range; C09_range_total: a parsed range can be evaluated on any flop beside '
                 'any other proper ranges without panic (via C08_total); C09_regex_semantics: each of the seven pattern literals read from the source on this run lies in the modelled regex subset and the '
-                'model\'s recogniser for that branch accepts exactly the byte strings the pattern matches (derivative semantics, Model/Regex.lean; literal vs. intended pattern decided by a proved-sound equivalence checker in the kernel).',
+                'model\'s recogniser for that branch accepts exactly the byte strings the pattern matches (derivative semantics, Model/Regex.lean; literal vs. intended pattern decided by a proved-sound equivalence checker in the kernel). C09_pair_total: a range holding a pair read by CardPair::from_str (which accepts two equal cards) beside parsed ranges is evaluated without panic.',
         'note': 'Lean kernel + standard axioms; hand-written model of the parsers with Rust\'s char-boundary slicing semantics (Model/Basic.lean) tied by the correspondence (all strings of length <= 3 over a '
                 '24-symbol alphabet incl. multi-byte characters, all seven shapes with arbitrary ranks, multi-byte splices, over-long input); regex crate modelled (not verified) by a derivative semantics of the subset used.',
         'design_ref': 'DESIGN.md §6 C09',
